@@ -129,6 +129,15 @@ for p in props:
     pid = p['id']
     if pid in CLAIMED and os.path.exists(os.path.join(V, 'rules', pid + '.py')):
         ref, text, tech = CLAIMED[pid]
+        ref = ref.replace('DESIGN.md §4', 'DESIGN.md §7.2 (as built) and §4')
+        # rule names registered by the rule module (kept current from the rule sources)
+        import re
+        src_ = open(os.path.join(V, 'rules', pid + '.py')).read()
+        names_ = []
+        for m_ in re.finditer(r"ctx\.rule\(\s*'([A-Z0-9-]+)'", src_):
+            if m_.group(1) not in names_:
+                names_.append(m_.group(1))
+        text = text + ' Rules: ' + ', '.join(names_) + ' (texts, instance counts and floors: RULES.md / evidence file).'
         checks.append({
             'property_id': pid,
             'quick_cmd': './check %s --tier quick' % pid,
@@ -137,7 +146,7 @@ for p in props:
             'replay_cmd_template': './check explain {path}',
             'engine': 'sfx+engine',
             'level_claimed': {'category': 'other', 'text': text, 'design_ref': ref},
-            'level_note': 'Trusted base: clang 14 front end (AST, CFG, constant folding), the sfx extractor, the Python engine and the rule module; '
+            'level_note': 'quick = all rules on the configured build of /repo\'s working tree; thorough = the same plus configuration overlays (big-endian CPU, no SSE2 / no lrint; see engine/run_thorough.py) and positive controls (reverse of every recorded fix + every seeded change for this property applied to a scratch copy must be reported; engine/controls.py). Trusted base: clang 14 front end (AST, CFG, constant folding), the sfx extractor, the Python engine and the rule module; '
                           'compile flags taken from the ninja compilation database of /repo/_build. The behavioural property as a whole is NOT decided; '
                           'only the named structural clauses, which are necessary conditions, are.',
             'technique': 'static analysis: ' + tech,
